@@ -435,6 +435,18 @@ func RunOutputCase(seed int64, o OutputOpts) *HistResult {
 					find("C19:log-api-differs-from-written-output", "GET /job/logs job %s task %q: stdout %d/%d bytes, stderr %d/%d bytes (got/written)", j.tag, ot.name, len(lr.Stdout), len(expOut), len(lr.Stderr), len(expErr))
 				}
 				res.sit("C19", "log api compared")
+				// the same job under another spelling of its id (every spelling the API accepts names the same job): the
+				// answer is the same output, or the spelling is refused - never another / an empty output
+				if code == 200 {
+					alts := []string{strings.ToUpper(j.id), "{" + j.id + "}", "urn:uuid:" + j.id, strings.ReplaceAll(j.id, "-", "")}
+					alt := alts[(int(seed)+len(ot.name))%len(alts)]
+					code2, body2 := api.Do("GET", "/job/logs", url.Values{"id": {alt}, "task": {ot.name}}, nil)
+					var lr2 struct{ Stdout, Stderr string }
+					if code2 == 200 && json.Unmarshal(body2, &lr2) == nil && (lr2.Stdout != lr.Stdout || lr2.Stderr != lr.Stderr) {
+						find("C19:log-api-differs-from-written-output", "GET /job/logs job %s task %q with the job id spelled %q answers 200 with stdout %d / stderr %d bytes, with the canonical spelling %d / %d bytes", j.tag, ot.name, alt[:9]+"...", len(lr2.Stdout), len(lr2.Stderr), len(lr.Stdout), len(lr.Stderr))
+					}
+					res.sit("C19", "log api asked with another spelling of the job id")
+				}
 			}
 		}
 		// C02 / C08 with the REAL task runner: a command that exits with a non-zero status fails its task (unless
